@@ -67,7 +67,23 @@ def pick_int(rng, table, lo, hi):
     v = v if rng.chance(1, 2) else -v - 1
     return max(lo, min(hi, v))
 
+BIG = [4095, 4096, 4097, 8191, 8192, 8193, 16383, 16384, 16385, 65535, 65536, 65537]
+
+def big_str(rng):
+    """long strings whose multi-byte characters straddle power-of-two offsets (buffer boundaries)"""
+    n = rng.choice(BIG)
+    k = rng.below(4)
+    if k == 0:
+        return 'a' * (n - 1) + rng.choice(['é', '€', '\U0001f600']) + 'b' * rng.below(5)
+    if k == 1:
+        return rng.choice(['é', '€', '\U0001f600']) * (n // 2)
+    if k == 2:
+        return 'x' * n
+    return ('a' * (n - 2) + '€') * 2
+
 def gen_str(rng):
+    if rng.chance(1, 40):
+        return big_str(rng)
     if rng.chance(1, 2):
         return rng.choice(STRS)
     n = rng.below(12)
@@ -76,6 +92,9 @@ def gen_str(rng):
 
 def gen_bytes(rng, n=None):
     if n is None:
+        if rng.chance(1, 40):
+            n = rng.choice(BIG)
+            return bytes((i * 31 + 7) & 0xff for i in range(n))
         n = rng.choice([0, 1, 2, 3, 7, 16, 127, 128]) if rng.chance(1, 2) else rng.below(20)
     return rng.bytes(n)
 
@@ -194,7 +213,7 @@ def make_leaf(ctx, k, ens):
         return Node({"type": "bytes", "logicalType": "big-decimal"}, g, "bigdecimal")
     # named leaves
     if k == "fixed":
-        size = rng.choice([0, 1, 2, 4, 12, 16, 17])
+        size = rng.choice([0, 1, 2, 4, 12, 16, 17]) if rng.chance(19, 20) else rng.choice([4097, 16385, 32768])
         hdr, full = named_header(ctx, "Fx", ens)
         js = dict(hdr, type="fixed", size=size)
         node = Node(js, lambda r, d: "(fixed %d %s)" % (size, hx(r.bytes(size))), "fixed", full)
